@@ -13,7 +13,7 @@ ASSUMPTIONS = [
 ]
 BOUNDS = {
     "quick": "every 19th of the 1562 subsets (<=3 segments of length <=2 over 4 symbols) as initial exploration; second op: explore(p in 5 candidates, <=2 segments from 6), explore(p, one of 13 mixed-length lists with up to 4 segments / 4 different lengths), mark_all_complete(<=2 of 5), two commuting explores (3 segment lists each), nearest_unknown/nearest_right for 25 keys",
-    "thorough": "all 1562 subsets of size <=3 and every 7th of size 4",
+    "thorough": "all subsets of size <=2, every 3rd of size 3 and every 20th of size 4",
 }
 OUTSIDE = "alphabets larger than 4 symbols per position, more than 4 initial prefixes, segments longer than 3 nibbles"
 NONTRIVIAL_RULE = "an accepted state-changing call, or a nearest query that returned a prefix"
@@ -27,7 +27,7 @@ def jobs(tier):
         if tier == "quick":
             if (i + seed) % 19 != 0 and len(segs) > 1:
                 continue
-        elif len(segs) == 4 and (i + seed) % 7 != 0:
+        elif (len(segs) == 4 and (i + seed) % 20 != 0) or (len(segs) == 3 and (i + seed) % 3 != 0):
             continue
         out.append({"module": "vf.props.hexfog", "fn": "h_fog", "cfg": {"segs": list(segs), "tier": tier}, "pct": 900, "ppt": 30})
     out.append({"module": "vf.props.hexfog", "fn": "r_fog", "cfg": {"segs": [1, 2], "tier": tier}, "pct": 300, "ppt": 30, "kind": "reach"})
